@@ -183,6 +183,8 @@ def build_spec(kind, sd):
         mod, cls, var = sd['struct']
         s.import_module(mod, cls)
         s.declare_var(var, cls)
+        if sd.get('struct_io'):
+            s.set_var_io_type(var, sd['struct_io'])
     if sd.get('unit') is not None:
         s.unit = sd['unit']
     if sd.get('period') is not None:
@@ -233,9 +235,11 @@ class Mon(object):
             self._struct_wanted = True
         else:
             # (dense time only on request: the workload must guarantee that every call passes aligned signals)
+            # (with io types: only the variables of one io class are folded into the object-typed variable, which
+            # then carries that io type - two fields of one variable cannot have different io types)
             self._struct_wanted = (STRUCT is not None and parse and kind.startswith('dt')
-                                   and not sd.get('io') and sd.get('semantics', 'standard') == 'standard'
-                                   and not sd.get('struct') and STRUCT.random() < STRUCT_P)
+                                   and not sd.get('struct') and
+                                   STRUCT.random() < (STRUCT_P * 2 if sd.get('io') else STRUCT_P))
 
     def _refused_declaration(self, h):
         """History: before parse(), the caller tries to declare a constant under a name that is already taken (by a
@@ -273,13 +277,27 @@ class Mon(object):
             else:
                 names = [a[0] for a in args]
                 sig = dict((a[0], a[1]) for a in args)
-            mp = structs.mapping(names)
+            io = self.sd.get('io') or {}
+            sio = None
+            if io or self.sd.get('semantics', 'standard') != 'standard':
+                groups = {}
+                for k in names:
+                    groups.setdefault(io.get(k), []).append(k)
+                sio = max(sorted(groups, key=str), key=lambda g: len(groups[g]))
+                mp = structs.mapping(groups[sio])
+            else:
+                mp = structs.mapping(names)
             if not mp:
                 return
             if method == 'evaluate' and not (len(args) == 1 and isinstance(args[0], dict)):
                 if not structs.aligned(sig, mp):
                     return
-            spec = build_spec(self.kind, structs.sd(self.sd, mp, names))
+            sd2 = structs.sd(self.sd, mp, names)
+            if io:
+                sd2['io'] = dict((k, t) for k, t in io.items() if k not in mp)
+            if sio:
+                sd2['struct_io'] = sio
+            spec = build_spec(self.kind, sd2)
             spec.parse()
             if self._pastified:
                 spec.pastify()
@@ -400,6 +418,12 @@ class Mon(object):
                 ins = [tuple(x) for x in ins]
                 k = h.randint(1, 5)
                 what = '%d update() calls with other values, then reset()' % k
+                if h.random() < 0.35:
+                    # two earlier episodes: a reset() that only works the first time must show
+                    for i in range(h.randint(1, 4)):
+                        s.update(t0 + i, [(nm, val + h.choice([-2.0, 0.0, 1.0, 3.0])) for nm, val in ins])
+                    s.reset()
+                    what = 'an earlier episode + reset(), then ' + what
                 bad = h.randrange(k) if (h.random() < 0.3 and len(ins) > 1) else None
                 pv = h.randrange(len(ins))
                 badval = 0.0 if ('/' in self.sd.get('text', '') and h.random() < 0.5) else None
@@ -423,6 +447,10 @@ class Mon(object):
                     vals = _shuffled(h, [x[1] + h.choice([-1.0, 0.0, 1.0]) for x in samples])
                     a2.append([name, [[samples[i][0], vals[i]] for i in range(len(samples))]])
                 what = 'one update() with other values, then reset()'
+                if h.random() < 0.35:
+                    s.update(*copy.deepcopy(a2))
+                    s.reset()
+                    what = 'an earlier episode + reset(), then ' + what
                 s.update(*a2)
                 s.reset()
             else:
